@@ -83,6 +83,8 @@ def expr(v):
         return f"defaultdict({v[1]}, {{" + ", ".join(f"{expr(k)}: {expr(x)}" for k, x in v[2]) + "})"
     if t == "norepr":
         return f"NoCode({v[1]})"
+    if t == "nbox":
+        return f"NoCodeBox({expr(v[1])})"
     if t == "ext":
         sfx = "" if v[2] is None else f", suffix={v[2]!r}"
         return f"outsource({expr(v[1])}{sfx})"
@@ -129,7 +131,7 @@ def walk(v):
             if t == "dd":
                 yield from walk(k)
             yield from walk(x)
-    elif t == "ext":
+    elif t in ("ext", "nbox"):
         yield from walk(v[1])
 
 
@@ -352,6 +354,11 @@ def gen_value(rng, prof, depth=None, top=True):
     if o == "inf":
         return ["inf", rng.choice([1, -1])]
     if o == "norepr":
+        if rng.random() < 0.4:
+            # the non-code repr embeds repr() of a child whose code form differs from its builtin repr
+            inner = rng.choice([["enum", rng.choice(ENUMS)], ["flag", "Perm", ["R", "W"]], ["cls", "Plain"], ["norepr", rng.randint(0, 9)], ["int", rng.randint(0, 9)],
+                                ["set", [["enum", "Color.RED"]]], ["dc", "DCN", [["k", ["int", 1]]]]])
+            return ["nbox", inner]
         return ["norepr", rng.randint(0, 9)]
     raise ValueError(o)
 
